@@ -33,8 +33,9 @@ Alpha  == [i \in DOMAIN Data.alpha |-> Conv(Data.alpha[i])]
 Traces == Data.traces
 NT     == Len(Traces)
 
-VARIABLES tid, l, hidx
-tvars == <<vars, tid, l, hidx>>
+VARIABLES tid, l, hidx, bucket
+tvars == <<vars, tid, l, hidx, bucket>>
+NB == 64     \* initial states; each worker picks the traces of one bucket (parallel judging)
 
 C(t)    == [i \in DOMAIN Traces[t].p |-> Alpha[Traces[t].p[i]]]   \* the input list
 G(t)    == Traces[t].g
@@ -139,25 +140,29 @@ ObsHead(t, i) == LET j == GroupOf(G(t), i) IN IF j = 0 THEN 0 ELSE G(t)[j].m[1]
 ObsRaised(t)  == IF Traces[t].r = "" THEN "none"
                  ELSE SubSeq(Traces[t].r, 1, 14)     \* "AttributeError" has 14 characters
 
-TInit == /\ Init /\ tid \in 1..NT /\ l = 1 /\ hidx = <<>>
-TNext == /\ l <= Len(Traces[tid].p)
+TInit == /\ Init /\ tid = 0 /\ l = 0 /\ hidx = <<>> /\ bucket \in 0..(NB - 1)
+Pick  == /\ tid = 0
+         /\ \E t \in {x \in 1..NT : x % NB = bucket} : tid' = t
+         /\ l' = 1 /\ UNCHANGED <<vars, hidx, bucket>>
+TStep == /\ tid # 0 /\ l <= Len(Traces[tid].p)
          /\ Step(C(tid)[l])
          /\ l' = l + 1
          /\ hidx' = IF IsFull(C(tid)[l]) /\ joined' \notin DOMAIN hidx
                     THEN hidx @@ (joined' :> l) ELSE hidx
-         /\ UNCHANGED tid
+         /\ UNCHANGED <<tid, bucket>>
+TNext == Pick \/ TStep
 TSpec == TInit /\ [][TNext]_tvars
 
 ModelHead == IF joined = NoRes THEN 0 ELSE hidx[joined]
 
 (* evaluated in every state; always TRUE, reports by printing (total monitor) *)
-Judge == l = 1 => \A cl \in Clauses : Holds(cl, tid) \/ PrintT(<<"FAIL", tid, cl>>)
+Judge == (tid # 0 /\ l = 1) => \A cl \in Clauses : Holds(cl, tid) \/ PrintT(<<"FAIL", tid, cl>>)
 Conform ==
-    /\ (l > 1 /\ err = "none" /\ Traces[tid].r = "") =>
+    /\ (tid # 0 /\ l > 1 /\ err = "none" /\ Traces[tid].r = "") =>
           (ModelHead = ObsHead(tid, l-1) \/ PrintT(<<"DRIFT", tid, l-1, ModelHead, ObsHead(tid, l-1)>>))
-    /\ (l > 1 /\ err # "none") =>
+    /\ (tid # 0 /\ l > 1 /\ err # "none") =>
           (Traces[tid].r # "" \/ PrintT(<<"DRIFT", tid, l-1, "model-raises", err>>))
-    /\ (l = Len(Traces[tid].p) + 1 /\ err = "none") =>
+    /\ (tid # 0 /\ l = Len(Traces[tid].p) + 1 /\ err = "none") =>
           (Traces[tid].r = "" \/ PrintT(<<"DRIFT", tid, l-1, "impl-raises", Traces[tid].r>>))
-Done == l = Len(Traces[tid].p) + 1 => PrintT(<<"DONE", tid>>)
+Done == (tid # 0 /\ l = Len(Traces[tid].p) + 1) => PrintT(<<"DONE", tid>>)
 =============================================================================
